@@ -36,4 +36,19 @@ theorem F9_repaired :
         (fun s => (needed s 0).all (fun n => (bfs s 64 [.var 0, .bld 0] []).contains n))
       = some true := by decide
 
+/-- F14 (known finding, code as it is): through a handle kept across `Reset` the context stays canceled, every `Apply`
+    builds a fresh itab, so after re-mocking `A` and then `B` only `B` is mocked. -/
+theorem F14_kept_handle_second_remock_wipes_first :
+    (run Cfg.fixed init2 [.mockH 0 0 "A" .ap true, .reset 0, .mockH 0 0 "A" .ap true, .mockH 0 0 "B" .ap true]).map
+        (fun s => (callSlot s 0 "A", callSlot s 0 "B"))
+      = some (some .notImpl, some (.stub 2)) := by decide
+
+/-- a single re-mock through the kept handle is fine, and the next `Reset` restores the variable -/
+theorem F14_single_remock_ok :
+    (run Cfg.fixed init2 [.mockH 0 0 "A" .ap true, .mockH 0 0 "B" .ap true, .reset 0, .mockH 0 0 "A" .ap true]).map
+        (fun s => (callSlot s 0 "A", callSlot s 0 "B"))
+      = some (some (.stub 2), some .notImpl)
+    ∧ (run Cfg.fixed init2 [.mockH 0 0 "A" .ap true, .reset 0, .mockH 0 0 "A" .ap true, .reset 0]).map (fun s => s.vars 0)
+      = some (.val 0) := by decide
+
 end C07F
